@@ -427,8 +427,8 @@ class BaseCollection(BaseDisplayRepr):
             recursive=recursive,
         )
         for child in remove_objects:
-            if child in self_objects:
-                rec_obj_remover(self, child)
+            # `self_objects` may be outdated when a parent of `child` was removed before
+            if child in self_objects and rec_obj_remover(self, child):
                 child._parent = None
             else:
                 if errors == "raise":
